@@ -2,7 +2,7 @@
 From Coq Require Import ZArith NArith List Bool Lia ZifyBool.
 Import ListNotations.
 Require Import EmbossV.Bits.Model EmbossV.Bits.Proofs_Int EmbossV.Bits.Proofs_Load EmbossV.Bits.Proofs_Read
-               EmbossV.Bits.Proofs_Write.
+               EmbossV.Bits.Proofs_Bcd EmbossV.Bits.Proofs_Write EmbossV.Bits.Proofs_BcdWrite EmbossV.Bits.Proofs_Portable.
 Open Scope Z_scope.
 
 Local Arguments Z.pow : simpl never.
@@ -113,6 +113,21 @@ Proof.
   rewrite <- (zfield_set_bytes o zs off w zs') by apply H2. exact H3.
 Qed.
 
+Lemma write_bcd_accept_l : forall o zs off w argty v, zcontainer_ok o zs -> zfield_ok zs off w ->
+  0 <= v <= bcd_max w -> in_cty (uty w) v ->
+  exists zs', bcd_try_write true (zfield o zs off w) argty w v = Some (true, Some zs') /\
+              write_post o zs off w (to_bcd_spec (bcd_digits w) v) zs' /\
+              bcd_read true (zfield o zs' off w) w = Some v /\ bcd_ok true (zfield o zs' off w) w = Some true.
+Proof.
+  intros o zs off w argty v C F Hv Hin.
+  assert (Hw : 1 <= w <= 64) by (destruct C as [_ [? _]]; destruct F as [? [? ?]]; lia).
+  destruct (bcd_try_write_accept _ _ _ _ argty v (zfield_wf o zs off w C F) Hv Hin) as [zs' [H1 [H2 [H3 H4]]]].
+  exists zs'. split; [exact H1|]. split.
+  - apply written_post; try assumption.
+    destruct (to_bcd_fits w v Hw Hv) as [Hfit _]. assert (B := to_bcd_bound (bcd_digits w) v ltac:(lia)). lia.
+  - rewrite <- (zfield_set_bytes o zs off w zs') by apply H2. split; assumption.
+Qed.
+
 (* TryToWrite <-> CouldWriteValue /\ IsComplete, UInt and Int views *)
 Lemma try_write_iff_l : forall o zs off w argty v, zcontainer_ok o zs -> zfield_ok zs off w ->
   std_cty argty -> in_cty argty v ->
@@ -133,6 +148,17 @@ Proof.
     assert (Hv : - 2 ^ (w - 1) <= v < 2 ^ (w - 1)) by (injection Hc; lia).
     destruct (write_int_accept_l o zs off w argty v C F Ha Hin Hv) as [zs' [H _]]. exists zs'. exact H.
 Qed.
+
+Lemma portable_writes_agree_l : forall o zs off w, zcontainer_ok o zs -> zfield_ok zs off w ->
+  (forall argty v, std_cty argty -> in_cty argty v ->
+     uint_try_write false (zfield o zs off w) argty w v = uint_try_write true (zfield o zs off w) argty w v) /\
+  (forall argty v, std_cty argty -> in_cty argty v ->
+     int_try_write false (zfield o zs off w) argty w v = int_try_write true (zfield o zs off w) argty w v) /\
+  (forall ut v, std_cty ut -> csigned ut = false -> w <= cbits ut -> in_cty ut v ->
+     enum_try_write false (zfield o zs off w) ut w v = enum_try_write true (zfield o zs off w) ut w v) /\
+  (forall bits, 0 <= bits < 2 ^ w ->
+     float_try_write false (zfield o zs off w) w bits = float_try_write true (zfield o zs off w) w bits).
+Proof. intros o zs off w C F. exact (writes_portable _ _ _ _ (zfield_wf o zs off w C F)). Qed.
 
 (* non-vacuity *)
 Lemma ex_write :
